@@ -17,13 +17,7 @@ RULE = ("case = (loop-thread program over {dispatch, register source, open neste
         "non-trivial = another thread performs a shared access between the first and the last shared access of one submission")
 
 MANIFEST = dict(
-    text=("Proof: over a small-step interleaving semantics of exactly the shared accesses of enqueue_signal / execute_new_loop / close_loop / "
-          "force_quit / register_signal_source / the dispatching get (Conc.v), for every number of threads, all programs and every schedule: "
-          "each signal is in exactly one place (C19_conservation, C19_no_duplication), nothing is lost when no level is closed or force-quit "
-          "concurrently (C19_all_dispatched_partial), equal-priority signals of one thread leave a queue in submission order (C19_thread_order), "
-          "a registered source routes to the innermost registered level whatever the loop thread does (C19_routing), no deadlock (C19_no_deadlock); "
-          "the F10 loss at a concurrent close_loop is exhibited (C19_lost_at_close_refuted).  The model is tied to /repo on every run by executing "
-          "the real MainLoop under a cooperative scheduler on the same schedules."),
+    text='Proof: over a small-step interleaving semantics of exactly the shared accesses of enqueue_signal / execute_new_loop / close_loop / force_quit / register_signal_source / the dispatching get (Conc.v), for every number of threads, all programs and every schedule: each signal is in exactly one place (C19_conservation, C19_no_duplication), nothing is lost when no level is closed or force-quit concurrently (C19_all_dispatched_partial), equal-priority signals of one thread leave a queue in submission order (C19_thread_order), a registered source routes to the innermost registered level whatever the loop thread does (C19_routing), no deadlock (C19_no_deadlock, C19_no_deadlock_loop, C19_lock_holders), a schedule and its sub-schedule of enabled turns reach the same state (C19_stutter_free); the gap between close_loop() and the return of its handler, in which _run_loop is False, is a schedule point of its own and a submission is the same whatever that flag is (C19_submission_ignores_run_loop, C19_submitter_ignores_run_loop); the F10 loss at a concurrent close_loop is exhibited (C19_lost_at_close_refuted, C19_lost_between_drain_and_pop).  The model is tied to /repo on every run by executing the real MainLoop under a cooperative scheduler on the same schedules, including schedules that put submissions into the close gap.',
     note=("Trusted: Coq kernel; extraction; harness (instance-level lock/queue/counter/list/set wrappers, scheduler); CPython executes each single "
           "shared access atomically (GIL, queue.Queue's mutex, itertools.count.__next__), sequential consistency, threading.Lock semantics: modelled, "
           "not verified.  Known finding F10: a signal in flight when its level is closed is lost (signal-lost-at-level-close)."),
